@@ -303,56 +303,61 @@ def corrupt(tr, rng):
                 pm["gs"] = [g for g in pm["gs"] if g != gone]
                 t["ev"][i]["post"]["ios"] = [y for y in t["ev"][i]["post"]["ios"]
                                              if not (y["g"] == m and y["loc"] == gone["loc"])]
-                out.append((t, "C18.SpecsEqBoundValues"))
+                out.append((t, "C18.SpecsEqBoundValues", i + 1))
                 want.discard("C18.SpecsEqBoundValues")
         if "C18.NoOrphanSpec" in want and e["res"] == "ok":
             t = copy.deepcopy(tr)
             t["ev"][i]["post"]["ios"].append({"g": "M1", "loc": "zz.csv", "v": 1})
-            out.append((t, "C18.NoOrphanSpec"))
+            out.append((t, "C18.NoOrphanSpec", i + 1))
             want.discard("C18.NoOrphanSpec")
         if "C18.LocationsUnique" in want and e["post"]["ios"]:
             t = copy.deepcopy(tr)
             y = dict(t["ev"][i]["post"]["ios"][0])
             t["ev"][i]["post"]["ios"].append(y)
-            out.append((t, "C18.LocationsUnique"))
+            out.append((t, "C18.LocationsUnique", i + 1))
             want.discard("C18.LocationsUnique")
         if "C18.RejectedLeavesNothing" in want and e["res"] == "rejected" and \
                 e["op"] == "new_spec" and e["post"]["M"][e["m"]]["open"]:
             t = copy.deepcopy(tr)
             t["ev"][i]["post"]["M"][e["m"]]["refs"].append(
                 {"sp": e["sp"], "n": "zz", "v": e["v"], "d": False})
-            out.append((t, "C18.RejectedLeavesNothing"))
+            out.append((t, "C18.RejectedLeavesNothing", i + 1))
             want.discard("C18.RejectedLeavesNothing")
         if "C18.SanityChecks" in want:
             t = copy.deepcopy(tr)
             t["ev"][i]["post"]["sane"] = False
-            out.append((t, "C18.SanityChecks"))
+            out.append((t, "C18.SanityChecks", i + 1))
             want.discard("C18.SanityChecks")
         if "C18.SavedSpecsRoundTrip" in want and e["op"] == "write_read" and e.get("rt"):
             t = copy.deepcopy(tr)
             t["ev"][i]["rt"][0]["rd"] = t["ev"][i]["rt"][0]["rd"][:-1] + [99]
-            out.append((t, "C18.SavedSpecsRoundTrip"))
+            out.append((t, "C18.SavedSpecsRoundTrip", i + 1))
             want.discard("C18.SavedSpecsRoundTrip")
     return out
 
 
 def negative_controls(traces, verdicts, rng):
+    """Corrupt one recorded field of accepted executions; TLC must raise the predicate's label at
+    the corrupted event (or, when the corrupted value went through the situation of a known
+    finding earlier in that trace, that finding's label)."""
     good = [tr for tr, v in zip(traces, verdicts)
             if not [l for l, _ in v["viol"] if not l.startswith("DRIFT")] and tr["ev"]]
     rng.shuffle(good)
     made, labels = [], set()
     for tr in good[:40]:
-        for t, lab in corrupt(tr, rng):
+        for t, lab, line in corrupt(tr, rng):
             if lab not in labels:
                 labels.add(lab)
-                made.append((t, lab))
+                made.append((t, lab, line))
     if not made:
         return {"attempted": 0, "rejected": 0, "labels": []}
-    vs, _ = judge([t for t, _ in made], procs=1)
-    rej = sum(1 for (t, lab), v in zip(made, vs) if any(l == lab for l, _ in v["viol"]))
+    vs, _ = judge([t for t, _, _ in made], procs=1)
+
+    def caught(lab, line, v):
+        return any(ln == line and (l == lab or l.startswith("KF:C18.")) for l, ln in v["viol"])
+    rej = sum(1 for (t, lab, line), v in zip(made, vs) if caught(lab, line, v))
     return {"attempted": len(made), "rejected": rej, "labels": sorted(labels),
-            "missed": sorted(lab for (t, lab), v in zip(made, vs)
-                             if not any(l == lab for l, _ in v["viol"]))}
+            "missed": sorted(lab for (t, lab, line), v in zip(made, vs) if not caught(lab, line, v))}
 
 
 # ---------------------------------------------------------------------------
@@ -435,7 +440,7 @@ def run(pid, tier, seed):
                 if sorted({lab for lab, _ in v["viol"] if is_property_label(lab)} &
                           set(tr["hdr"]["model_labels"])) == sorted(tr["hdr"]["model_labels"]))
     nc = negative_controls(traces, verdicts, rng)
-    if nc["attempted"] < 6 or nc["rejected"] != nc["attempted"]:
+    if (nc["attempted"] < 6 or nc["rejected"] != nc["attempted"]) and not res["violations"]:
         res["machinery_failure"] = "negative controls: %r" % (nc,)
 
     mc_states = sum(r.get("states") or 0 for r in mcs)
